@@ -5,6 +5,7 @@
      cat    [a, b, out, rout]                      a + b  and  (literal b) + a
      sl     [a, s, out]                            a[lo:hi:step], s = <<lo, hi, step>> each <<>> or <<v>>
      cmp    [op, sig, noise, thr, out]             electrical_signal >/< threshold, integer-valued data
+     cmplen [n, m, raised, out]                    signal of n samples against a threshold of m values
      cmpany [n, out]                               any signal (complex, negative): shape/alphabet only   *)
 EXTENDS PySlice, FiniteSets, TLC, Json, IOUtils
 Ones(b)  == Cardinality({i \in 1..Len(b) : b[i] = 1})
@@ -30,6 +31,11 @@ Clauses(e) ==
     [] e.kind = "sl" -> IF e.out # SliceSeq(e.a, e.s[1], e.s[2], e.s[3]) THEN {"slice"} ELSE {}
     [] e.kind = "cmp" -> (IF Len(e.out) # Len(e.sig) \/ ~IsBits(e.out) THEN {"cmp-shape"} ELSE {}) \cup
                          (IF NonNeg(e) /\ e.out # Cmp(e) THEN {"cmp-elementwise"} ELSE {})
+    \* a threshold of the signal's length or a single value is compared element-wise; any other length is either rejected (ValueError)
+    \* or, at any rate, never produces a sequence of another length than the signal's
+    [] e.kind = "cmplen" -> IF e.m = e.n \/ e.m = 1 THEN (IF e.raised # "ok" \/ Len(e.out) # e.n \/ ~IsBits(e.out) THEN {"cmp-shape"} ELSE {})
+                            ELSE (IF e.raised = "ok" THEN (IF Len(e.out) # e.n \/ ~IsBits(e.out) THEN {"cmp-shape"} ELSE {})
+                                  ELSE IF e.raised # "ValueError" THEN {"cmp-mismatch-error"} ELSE {})
     [] e.kind = "cmpany" -> IF Len(e.out) # e.n \/ ~IsBits(e.out) THEN {"cmp-shape"} ELSE {}
 Bad == UNION {{<<i, c>> : c \in Clauses(Trace[i])} : i \in 1..Len(Trace)}
 ASSUME JsonSerialize(IOEnv.OUT_FILE, [n |-> Len(Trace), bad |-> Bad])
